@@ -249,6 +249,111 @@ CASES = [
     ("copy.deepcopy translates", "import copy\ndef f(a):\n    b = copy.deepcopy(a)\n    return b\n", spec_for(LF, "list[float]"), None),
     ("copy.copy is not understood", "import copy\ndef f(a):\n    b = copy.copy(a)\n    return b\n", spec_for(LF, "list[float]"), "not a translated function"),
     ("copy.deepcopy without the import", "def f(a):\n    b = copy.deepcopy(a)\n    return b\n", spec_for(LF, "list[float]"), "not a translated function"),
+    # ---- fourth round
+    ("a list display returned where the spec gives a tuple translates", "def f(a):\n    b = [x for x in a]\n    return [b, a[0]]\n",
+     spec_for(LF, "tuple[list[float],float]"), None),
+    ("a heterogeneous list display returned where the spec gives a list", "def f(a):\n    b = [x for x in a]\n    return [b, a[0]]\n",
+     spec_for(LF, "list[float]"), "type mismatch"),
+    ("none variant (p=None, `if p is None: p = ...`) translates", "def f(a, w=None):\n    if w is None:\n        w = [1.0 for _ in a]\n    return w\n",
+     spec_for({"a": "list[float]", "w": "list[float]"}, "list[float]", none_variants=[{"suffix": "w_none", "none": ["w"]}]), None),
+    ("none variant of a parameter whose default is not None", "def f(a, w=1.0):\n    return w\n",
+     spec_for({"a": "list[float]", "w": "float"}, "float", none_variants=[{"suffix": "w_none", "none": ["w"]}]), "default of the none parameter"),
+    ("none variant: the parameter is read while it is None", "def f(a, w=None):\n    return w\n",
+     spec_for({"a": "list[float]", "w": "list[float]"}, "list[float]", none_variants=[{"suffix": "w_none", "none": ["w"]}]), "not (definitely) bound"),
+    ("object argument: an attribute of the declared set translates", "def f(c):\n    return c.pts[c.n]\n",
+     spec_multi([dict(name="f", params={"c": "obj:rec"}, returns="float")], objects={"rec": {"n": "int", "pts": "list[float]"}}), None),
+    ("object argument: an attribute that is not declared", "def f(c):\n    return c.q\n",
+     spec_multi([dict(name="f", params={"c": "obj:rec"}, returns="float")], objects={"rec": {"n": "int", "pts": "list[float]"}}), "is not in the spec of the object"),
+    ("object argument: undeclared object type", "def f(c):\n    return c.n\n",
+     spec_multi([dict(name="f", params={"c": "obj:rec"}, returns="int")]), "is not in the spec (objects)"),
+    ("object argument: storing into an attribute", "def f(c):\n    c.n = 1\n    return 1.0\n",
+     spec_multi([dict(name="f", params={"c": "obj:rec"}, returns="float")], objects={"rec": {"n": "int", "pts": "list[float]"}}), "target not understood"),
+    ("object argument: a method call", "def f(c):\n    return c.evaluate(1.0)\n",
+     spec_multi([dict(name="f", params={"c": "obj:rec"}, returns="float")], objects={"rec": {"n": "int", "pts": "list[float]"}}), "not a translated function"),
+    ("object argument: in-place update through a local name of an attribute",
+     "def f(c):\n    p = c.pts\n    q = [0.0 for _ in p]\n    q[0] = 1.0\n    p[0] = 2.0\n    return q\n",
+     spec_multi([dict(name="f", params={"c": "obj:rec"}, returns="list[float]", alias_ok=True)], objects={"rec": {"n": "int", "pts": "list[float]"}}),
+     "part of a dict argument"),
+    ("[() for _ in range(n)] placeholders translate", "def f(a, n):\n    b = [() for _ in range(n)]\n    for i in range(n):\n        b[i] = [a[i]]\n    return b\n",
+     spec_for({"a": "list[float]", "n": "int"}, "list[list[float]]"), None),
+    ("() outside a comprehension", "def f(a):\n    b = ()\n    c = b\n    return a\n", spec_for(LF, "list[float]"), "fewer than two"),
+    ("a translated function as the default of a function-typed keyword translates",
+     "def g(a):\n    return a[0]\ndef f(a, **kwargs):\n    h = kwargs.get('h', g)\n    return h(a)\n",
+     spec_multi([dict(name="g", params=LF, returns="float"), dict(name="f", params=LF, kwargs={"h": "fn(list[float])->float"}, returns="float")]), None),
+    ("a function default of another type than the spec gives",
+     "def g(a):\n    return a[0]\ndef f(a, **kwargs):\n    h = kwargs.get('h', g)\n    return h(a, 1)\n",
+     spec_multi([dict(name="g", params=LF, returns="float"), dict(name="f", params=LF, kwargs={"h": "fn(list[float],int)->float"}, returns="float")]),
+     "another type"),
+    ("`if x is not None` on a None-or-float slot translates (a match)",
+     "def f(a):\n    for x in a:\n        if x is not None:\n            if x < 0.0:\n                return False\n    return True\n",
+     spec_for({"a": "list[optfloat]"}, "bool"), None),
+    ("a None-or-float slot compared without a test", "def f(a):\n    return a[0] < 0.0\n", spec_for({"a": "list[optfloat]"}, "bool"), "comparison"),
+    ("a branch that returns on some paths only translates (the continuation is duplicated)",
+     "def f(a):\n    s = 0.0\n    if len(a) > 1:\n        if a[0] < 0.0:\n            return 1.0\n    return s\n", spec_for(LF, "float"), None),
+    ("slice assignment b[lo:hi] = fresh list translates", "def f(a, n):\n    b = [0.0 for _ in range(n)]\n    b[1:3] = [x for x in a]\n    return b\n",
+     spec_for({"a": "list[float]", "n": "int"}, "list[float]"), None),
+    ("slice assignment into a row translates", "def f(a, n):\n    b = [[0.0 for _ in range(n)] for _ in range(n)]\n    b[0][1:n] = [x for x in a]\n    return b\n",
+     spec_for({"a": "list[float]", "n": "int"}, "list[list[float]]"), None),
+    ("slice assignment with a step", "def f(a, n):\n    b = [0.0 for _ in range(n)]\n    b[0:4:2] = [x for x in a]\n    return b\n",
+     spec_for({"a": "list[float]", "n": "int"}, "list[float]"), "slice assignment"),
+    ("slice assignment of a list that has another name", "def f(a, n):\n    b = [0.0 for _ in range(n)]\n    c = [x for x in a]\n    b[1:3] = c\n    b[0] = 1.0\n    return b\n",
+     spec_for({"a": "list[float]", "n": "int"}, "list[float]"), "second name"),
+    ("a static keyword (specialisation to its value) translates",
+     "def f(a, **kwargs):\n    flag = kwargs.get('flag', False)\n    if flag:\n        return a[0]\n    return a[1]\n",
+     spec_for(LF, "float", static_kwargs={"flag": False}), None),
+    ("a static keyword that is never read", "def f(a, **kwargs):\n    return a[1]\n", spec_for(LF, "float", static_kwargs={"flag": False}), "never read"),
+    ("a static keyword with a non-bool default", "def f(a, **kwargs):\n    flag = kwargs.get('flag', 0)\n    return a[1]\n",
+     spec_for(LF, "float", static_kwargs={"flag": False}), "must be True / False"),
+    ("construction of a result object translates", "from . import B\ndef f(a):\n    c = B.Curve()\n    c.x = a[0]\n    return c\n",
+     spec_multi([dict(name="f", params=LF, returns="obj:rec", constructs={"B.Curve": "rec"})], objects={"rec": {"x": "float"}}), None),
+    ("a constructor that is not in the spec", "from . import B\ndef f(a):\n    c = B.Curve()\n    c.x = a[0]\n    return c\n",
+     spec_multi([dict(name="f", params=LF, returns="obj:rec")], objects={"rec": {"x": "float"}}), "not a translated function"),
+    ("a constructor with arguments", "from . import B\ndef f(a):\n    c = B.Curve(a)\n    c.x = a[0]\n    return c\n",
+     spec_multi([dict(name="f", params=LF, returns="obj:rec", constructs={"B.Curve": "rec"})], objects={"rec": {"x": "float"}}), "not a translated function"),
+    ("result object: an attribute that is never assigned", "from . import B\ndef f(a):\n    c = B.Curve()\n    return c\n",
+     spec_multi([dict(name="f", params=LF, returns="obj:rec", constructs={"B.Curve": "rec"})], objects={"rec": {"x": "float"}}), "never assigned"),
+    ("result object: an attribute assigned twice", "from . import B\ndef f(a):\n    c = B.Curve()\n    c.x = a[0]\n    c.x = a[1]\n    return c\n",
+     spec_multi([dict(name="f", params=LF, returns="obj:rec", constructs={"B.Curve": "rec"})], objects={"rec": {"x": "float"}}), "assigned twice"),
+    ("result object: an undeclared attribute", "from . import B\ndef f(a):\n    c = B.Curve()\n    c.y = a[0]\n    return c\n",
+     spec_multi([dict(name="f", params=LF, returns="obj:rec", constructs={"B.Curve": "rec"})], objects={"rec": {"x": "float"}}), "is not in the spec of the object"),
+    ("result object: read while under construction", "from . import B\ndef f(a):\n    c = B.Curve()\n    c.x = a[0]\n    d = c\n    return c\n",
+     spec_multi([dict(name="f", params=LF, returns="obj:rec", constructs={"B.Curve": "rec"})], objects={"rec": {"x": "float"}}), "under construction"),
+    ("result object: an attribute assigned inside a loop", "from . import B\ndef f(a):\n    c = B.Curve()\n    for v in a:\n        c.x = v\n    return c\n",
+     spec_multi([dict(name="f", params=LF, returns="obj:rec", constructs={"B.Curve": "rec"})], objects={"rec": {"x": "float"}}), "top level"),
+    ("an abstract callee is passed on to a translated callee",
+     "from . import linalg\ndef g(a):\n    return linalg.sq(a[0])\ndef f(a):\n    return g(a)\n",
+     spec_multi([dict(name="g", params=LF, returns="float", abstract_calls={"linalg.sq": {"param": "sq", "type": "fn(float)->float"}}),
+                 dict(name="f", params=LF, returns="float", abstract_calls={"linalg.sq": {"param": "sq", "type": "fn(float)->float"}})]), None),
+    ("call of a function with an abstract callee from one without",
+     "from . import linalg\ndef g(a):\n    return linalg.sq(a[0])\ndef f(a):\n    return g(a)\n",
+     spec_multi([dict(name="g", params=LF, returns="float", abstract_calls={"linalg.sq": {"param": "sq", "type": "fn(float)->float"}}),
+                 dict(name="f", params=LF, returns="float")]), "not an abstract callee of this function"),
+    ("a static argument given by a constant-propagated flag translates",
+     "def g(a, flag=False):\n    if flag:\n        return a[0]\n    return a[1]\ndef f(a):\n    fl = True\n    return g(a, fl)\n",
+     spec_multi([dict(name="g", params=LF, static={"flag": [False, True]}, returns="float"), dict(name="f", params=LF, returns="float")]), None),
+    ("a static argument given by the caller's own static parameter translates",
+     "def g(a, flag=False):\n    if flag:\n        return a[0]\n    return a[1]\ndef f(a, flag=False):\n    return g(a, flag)\n",
+     spec_multi([dict(name="g", params=LF, static={"flag": [False, True]}, returns="float"),
+                 dict(name="f", params=LF, static={"flag": [False, True]}, returns="float")]), None),
+    ("a static argument for which the callee is not translated",
+     "def g(a, flag=False):\n    if flag:\n        return a[0]\n    return a[1]\ndef f(a):\n    return g(a, True)\n",
+     spec_multi([dict(name="g", params=LF, static={"flag": [False]}, returns="float"), dict(name="f", params=LF, returns="float")]), "not translated for"),
+    ("all() of a list of bools translates", "def f(a):\n    r = [x < 1.0 for x in a]\n    return all(r)\n", spec_for(LF, "bool"), None),
+    ("all() of a list of floats", "def f(a):\n    return all(a)\n", spec_for(LF, "bool"), "all() of a"),
+    ("f(*args) with the spec's vararg translates", "def f(*args):\n    return args[0]\n", spec_for({"args": "list[list[float]]"}, "list[float]", vararg="args"), None),
+    ("f(*args) without vararg in the spec", "def f(*args):\n    return args[0]\n", spec_for({"args": "list[list[float]]"}, "list[float]"), "unsupported argument kinds"),
+    ("f(x, *args)", "def f(x, *args):\n    return args[0]\n", spec_for({"x": "float", "args": "list[list[float]]"}, "list[float]", vararg="args"), "unsupported argument kinds"),
+    ("call of a function with *args", "def g(*args):\n    return args[0]\ndef f(a):\n    return g(a)\n",
+     spec_multi([dict(name="g", params={"args": "list[list[float]]"}, vararg="args", returns="list[float]"), dict(name="f", params=LF, returns="list[float]")]),
+     "with *args"),
+    ("x ** 2 on a float translates", "def f(a):\n    return a[0] ** 2\n", spec_for(LF, "float"), None),
+    ("x ** 3 on a float", "def f(a):\n    return a[0] ** 3\n", spec_for(LF, "float"), "float operator Pow"),
+    ("math.sqrt without an abstract callee in the spec", "import math\ndef f(a):\n    return math.sqrt(a[0])\n", spec_for(LF, "float"), "math.sqrt: not understood"),
+    ("math.sqrt as an abstract callee translates", "import math\ndef f(a):\n    return math.sqrt(a[0])\n",
+     spec_for(LF, "float", abstract_calls={"math.sqrt": {"param": "py_sqrt", "type": "fn(float)->float"}}), None),
+    ("math.sqrt as an abstract callee without `import math`", "def f(a):\n    return math.sqrt(a[0])\n",
+     spec_for(LF, "float", abstract_calls={"math.sqrt": {"param": "py_sqrt", "type": "fn(float)->float"}}), "not a translated function"),
+    ("a % n with a run-time divisor", "def f(a, n):\n    return len(a) % n\n", spec_for({"a": "list[float]", "n": "int"}, "int"), "integer operator Mod"),
 ]
 
 
